@@ -125,9 +125,12 @@ pub fn ast_strategy() -> BoxedStrategy<Case> {
         .prop_flat_map(move |pool| {
             let pool: Vec<u64> = pool.into_iter().map(|x| if x > 11 { x } else { x % 3 }).collect();
             let mut cfg = GenCfg::standard(pool);
-            cfg.allow_misplaced_wild = !wild_open;
-            cfg.allow_lowerless_hyphen = !hyph_open;
-            cfg.allow_empty_alt = !empty_open;
+            // the C01 finding classes (npm semantics) are no reason to exclude these spellings here:
+            // this property compares the crate with itself
+            let _ = (wild_open, hyph_open, empty_open);
+            cfg.allow_misplaced_wild = true;
+            cfg.allow_lowerless_hyphen = true;
+            cfg.allow_empty_alt = true;
             cfg.pre_weight = 6;
             cfg.max_alts = 4;
             cfg.max_toks = 2;
